@@ -81,11 +81,11 @@ def generate(prop, tier, workdir):
             continue
         _keep.add(_n)
         _todo += _f.calls
-    _rm = [f.name for f in _t.by_file["/repo/src/transmission/bidib_transmission_receive.c"] if f.name not in _keep]
+    _rm = [f.name for f in _t.by_file[csrc.REPO + "/src/transmission/bidib_transmission_receive.c"] if f.name not in _keep]
     _fn = sorted(_keep)
     stubs, names = write_stubs(_t, workdir, _keep)
-    _extra = ["/repo/src/transmission/bidib_transmission_util.c", "/repo/src/transmission/bidib_transmission_message_string_mapping.c", "/repo/src/state/bidib_state.c"]
-    _rm_state = [f.name for f in _t.by_file["/repo/src/state/bidib_state.c"] if f.name != "bidib_booster_normal_to_simple"]
+    _extra = [csrc.REPO + "/src/transmission/bidib_transmission_util.c", csrc.REPO + "/src/transmission/bidib_transmission_message_string_mapping.c", csrc.REPO + "/src/state/bidib_state.c"]
+    _rm_state = [f.name for f in _t.by_file[csrc.REPO + "/src/state/bidib_state.c"] if f.name != "bidib_booster_normal_to_simple"]
     units = [
         Unit(name="C06.dispatch", src="units/C06/dispatch.c", defines=["VP_LONG_ENOUGH"], functions=_fn, props=["C06", "C19", "C15", "C04", "C07"],
              no_dfcc=True, remove_bodies=_rm + ["bidib_communication_works", "bidib_extract_msg_type", "bidib_extract_address", "bidib_extract_seq_num", "bidib_build_message_hex_string"] + _rm_state,
@@ -105,6 +105,11 @@ def generate(prop, tier, workdir):
         Unit(name="C06.queue_add", src="units/C06/queue.c", defines=["VP_H_ADD"], functions=["bidib_message_queue_add", "bidib_message_queue_free_head"], props=["C06"],
              no_dfcc=True, remove_bodies=[f for f in _rm if f not in ("bidib_message_queue_add", "bidib_message_queue_free_head")] + ["bidib_handle_received_message", "bidib_log_received_message", "bidib_log_sys_error", "bidib_log_boost_stat_error", "bidib_log_boost_stat_okay"],
              extra_flags=["--nondet-static"], covers=2, min_obligations=8, note="queue of any length 0..128 (lazy queue abstraction)"),
+        Unit(name="C06.queue_guard", src="units/C06/queue_guard.c", functions=["bidib_read_message", "bidib_read_error_message", "bidib_read_intern_message", "bidib_uplink_queue_add", "bidib_uplink_error_queue_add", "bidib_uplink_intern_queue_add",
+                        "bidib_uplink_queue_reset", "bidib_uplink_error_queue_reset", "bidib_uplink_intern_queue_reset", "bidib_uplink_queue_free", "bidib_uplink_error_queue_free", "bidib_uplink_intern_queue_free"], props=["C06", "C10"],
+             no_dfcc=True, remove_bodies=["bidib_handle_received_message", "bidib_log_received_message", "bidib_log_sys_error", "bidib_log_boost_stat_error", "bidib_log_boost_stat_okay", "bidib_receive_packet", "bidib_receive_first_pkt_magic", "bidib_auto_receive", "bidib_split_packet"],
+             extra_flags=["--nondet-static", "--unwind", "17"], covers=4, min_obligations=8, kind="bounded", bound="each queue holds 0 or 1 entries (the guard obligation sits on every queue operation, so longer queues add no new call sites)",
+             note="guarded-global discipline of the three FIFOs: real lock call sites through the ghost lock model; reset(false) is only called from free() under the lock and is covered through it"),
         Unit(name="C06.queue_read", src="units/C06/queue.c", functions=["bidib_read_message_from_queue"], props=["C06"],
              no_dfcc=True, remove_bodies=[f for f in _rm if f not in ("bidib_read_message_from_queue",)] + ["bidib_handle_received_message", "bidib_log_received_message", "bidib_log_sys_error", "bidib_log_boost_stat_error", "bidib_log_boost_stat_okay"],
              extra_flags=["--nondet-static"], covers=2, min_obligations=8),
